@@ -281,7 +281,14 @@ def dlStep (s : St) (w : List String) : St × String :=
   | [op, h, x] =>
     match h.pn, x.pn with
     | some h, some x =>
-      if op == "pre" || op == "app" then
+      if op == "popt" then
+        -- list_pop_type(list, typ, field): `none` (NULL) on an empty list, else the element
+        if (h = 1 || h = 2) && x ≤ 1 then
+          let r := DList.listPop s.dl h
+          let s := { s with dl := r.1, dst := if r.2 = 0 then s.dst else s.dst.set r.2 1 }
+          (s, ptrStr r.2 ++ dlTail s)
+        else (s, "bad-op")
+      else if op == "pre" || op == "app" then
         if isHead h && isItem x && s.dst.get x = 1 then
           let s := dlInsert s h x (op == "pre")
           (s, "ok" ++ dlTail s)
@@ -411,7 +418,16 @@ def shStep (s : St) (w : List String) : St × String :=
   | [op, h, k] =>
     match h.pn, k.pn with
     | some h, some k =>
-      if (op == "app" || op == "pre") && h ≤ 1 && k ≥ 2 && k < s.shN && s.shSt.get k = 1 then
+      if op == "popt" then
+        -- shlist_pop_type(list, type, field): `none` (NULL) on an empty list, else the element
+        if h ≤ 1 && k ≤ 1 then
+          let l := shAddr s h
+          let r := SHList.pop s.sh l
+          let res := shOpt s r.2
+          let s := { s with sh := r.1, shSt := match r.2 with | none => s.shSt | some a => s.shSt.set (shSlotOf s a) 1 }
+          (s, res ++ shTail s)
+        else (s, "bad-op")
+      else if (op == "app" || op == "pre") && h ≤ 1 && k ≥ 2 && k < s.shN && s.shSt.get k = 1 then
         let m := if op == "app" then SHList.append s.sh (shAddr s h) (shAddr s k)
                  else SHList.prepend s.sh (shAddr s h) (shAddr s k)
         let s := { s with sh := m, shSt := s.shSt.set k (2 + h) }
